@@ -427,6 +427,12 @@ theorem byte_eq_lit (b : UInt8) (k : Nat) (hk : k < 256) : ((b.toNat : Int) = (k
 @[simp] theorem valEq_bytes (a b : Bytes) : valEq (.bytes a) (.bytes b) = some (a == b) := id rfl
 
 @[simp] theorem matchCase_nil (X : Ctx) (σ : State) (tag : Val) : matchCase X σ tag [] = .ok false := id rfl
+/-- a case of a TAGLESS switch (`switch { case cond: … }`, a switch on `true`): the condition decides -/
+theorem matchCase_true1 (X : Ctx) (σ : State) (e : Expr) (b : Bool) (h : evalE X σ e = .ok (.bool b)) :
+    matchCase X σ (.bool true) [e] = .ok b := by
+  simp only [matchCase, h, Res.bind, valEq]
+  cases b <;> rfl
+
 /-- a case value that is an integer literal (the only kind the whitelisted switches use) -/
 @[simp] theorem matchCase_lit_int (X : Ctx) (σ : State) (a b : Int) (es : List Expr) :
     matchCase X σ (.int a) (.lit (.int b) :: es) = if a = b then .ok true else matchCase X σ (.int a) es := by
